@@ -233,6 +233,8 @@ func (g *Gen) closeLoop(li *loopInfo, q *ssa.BasicBlock, si int) error {
 		allowed := g.frameTargets()
 		saveGuard, saveCur := g.curGuard, g.cur
 		g.curGuard, g.cur = c, st
+		var lfAll []string
+		var lfNames []string
 		for _, comp := range sortedKeys(li.modSet) {
 			hq := g.heapTerm(st, comp)
 			hp := g.heapTerm(li.preState, comp)
@@ -244,7 +246,11 @@ func (g *Gen) closeLoop(li *loopInfo, q *ssa.BasicBlock, si int) error {
 			for _, t := range allowed[comp] {
 				conds = append(conds, sx("distinct", fr, t.Ref))
 			}
-			g.oblige("loop-frame", fmt.Sprintf("L%d:%s:b%d", li.idx, comp, q.Index), imp(and(conds...), eq(sel(hq, fr), sel(hp, fr))), g.loopPos(li), "loop body writes only what the modifies clause allows: "+comp)
+			lfAll = append(lfAll, imp(and(conds...), eq(sel(hq, fr), sel(hp, fr))))
+			lfNames = append(lfNames, comp)
+		}
+		if len(lfAll) > 0 {
+			g.oblige("loop-frame", fmt.Sprintf("L%d:b%d", li.idx, q.Index), and(lfAll...), g.loopPos(li), "loop body writes only what the modifies clause allows: "+strings.Join(lfNames, ", "))
 		}
 		g.curGuard, g.cur = saveGuard, saveCur
 	}
